@@ -111,6 +111,25 @@ STDOUT_QUICK_TARGETS = ["dash", "empty", "jsonfile", "avro"]
 STDOUT_QUICK_HISTORIES = ["c", "x", "fc", "fx", "cc", "cx", "xc", "wc", "wx", "wwc", "wwx", "wfwc", "fwc", "fwwx", "wcc", "wxc", "wcx", "wwwc"]
 WORKER_TIMEOUT_S = 120
 
+# split targets given as RELATIVE names, resolved in the worker's working directory.  In the scheme://name forms urlparse
+# puts the file name into netloc and leaves the path empty.  form -> (URI before the query, adapter kind of the parts,
+# scheme needed to read a part, directory of the parts relative to cwd)
+SPLIT_REL_FORMS = {
+    "bare": ("split://out.records", "stream", None, ""),
+    "bare-gz": ("split://out.records.gz", "stream.gz", None, ""),
+    "sub": ("split://sub/out.json", "jsonfile", None, "sub"),
+    "uri-json": ("split+jsonfile://out.json", "jsonfile", None, ""),
+    "uri-stream": ("split+stream://out.records", "stream", None, ""),
+    "uri-avro": ("split+avro://out.avro", "avro", None, ""),
+    "uri-json-sub": ("split+jsonfile://sub/out.dat", "jsonfile", "jsonfile", "sub"),
+    "uri-noext": ("split+stream://out", "stream", None, ""),
+    # rdump --split COUNT --suffix-length LEN -w <uri>: rdump itself prefixes split:// or split+
+    "rdump-json": ("rdump:jsonfile://out.json", "jsonfile", None, ""),
+    "rdump-bare": ("rdump:out.records", "stream", None, ""),
+    "rdump-avro": ("rdump:avro://out.avro", "avro", None, ""),
+}
+SPLIT_REL_GRID = [(1, 2, 3), (2, 1, 5), (3, 2, 7), (4, 2, 9), (3, 3, 6), (7, 1, 8)]  # (limit, suffix length, N)
+
 ROT_WRITERS = ["ptw", "archiver", "archive-uri"]
 ROT_TEMPLATES = {
     # name -> (template relative to the root (PathTemplateWriter) - its last component is what RecordArchiver / archive://
@@ -221,6 +240,17 @@ def generate(ctx):
                             yield {"k": "rot", "w": wk, "t": tname, "ext": ext, "pat": pat, "sent": sent, "phases": phases,
                                    "s": subseed("c17", ctx.seed, "c", wk, tname, ext, pat, sent)}
                         idx += 1
+    # (b'') split targets with relative names, written by a worker process whose cwd is the case directory
+    grid = SPLIT_REL_GRID[:3] if ctx.quick else SPLIT_REL_GRID + [(2, 2, 0), (1, 1, 12)]
+    for form in SPLIT_REL_FORMS:
+        for gi, (limit, sl, n) in enumerate(grid):
+            if ctx.quick and form.startswith("rdump") and gi:
+                continue
+            end = "x" if (gi + len(form)) % 2 else "c"
+            if ctx.mine(idx):
+                yield {"k": "splitrel", "form": form, "limit": limit, "sl": sl, "n": n, "end": end,
+                       "s": subseed("c17", ctx.seed, "brel", form, limit, sl, n)}
+            idx += 1
     # (d) writers on standard output, one worker process per case
     for tg in (STDOUT_QUICK_TARGETS if ctx.quick else list(STDOUT_TARGETS)):
         for h in (STDOUT_QUICK_HISTORIES if ctx.quick else list(all_histories())):
@@ -418,6 +448,14 @@ def exec_split(ctx, case):
     if twice:
         ctx.violation(None, "split: two parts share a path (the same file was opened for writing more than once)",
                       detail=dict(extra, paths=[p[len(d):] for p in twice[:6]], opens=len(opened)))
+    analyse_parts(ctx, case, d, spec, read_scheme, expected, extra, "split:" + case["tg"])
+    shutil.rmtree(d, ignore_errors=True)
+
+
+def analyse_parts(ctx, case, d, spec, read_scheme, expected, extra, sample_kind):
+    """Oracle of part (b) over the files in directory d: numbering, limit, stand-alone readability, concatenation."""
+    fam, codec = spec["fam"], spec["codec"]
+    limit, sl, n, end = case["limit"], case["sl"], case["n"], case["end"]
     names = sorted(os.listdir(d))
     parts = []
     for nm in names:
@@ -429,6 +467,12 @@ def exec_split(ctx, case):
     parts.sort()
     if len({i for i, _ in parts}) != len(parts):
         ctx.violation(None, "split: two parts carry the same number", detail=dict(extra, files=names))
+    elif [i for i, _ in parts] != list(range(len(parts))):
+        ctx.violation(None, "split: the part numbers are not 0..k-1 (a part is missing)", detail=dict(extra, files=names))
+    for i, nm in parts:
+        digits = next(x for x in nm.split(".") if x.isdigit())
+        if digits != str(i).rjust(sl, "0"):
+            ctx.violation(None, "split: a part's suffix is not its number padded to the suffix length", detail=dict(extra, part=nm, files=names))
     ctx.event("b_parts", len(parts))
 
     concat_reader, concat_indep, raw = [], [], []
@@ -496,8 +540,8 @@ def exec_split(ctx, case):
             report(ctx, key, "split: raw-byte concatenation of the parts", wp, dict(extra, files=names))
     if held:
         ctx.event("b_held")
-    ctx.sample({"case": case, "files": names}, kind="split:" + case["tg"])
-    shutil.rmtree(d, ignore_errors=True)
+    ctx.sample({"case": case, "files": names}, kind=sample_kind)
+
 
 
 # ---- (c) rotation ---------------------------------------------------------------------------------
@@ -714,6 +758,104 @@ def exec_rotation(ctx, case):
     shutil.rmtree(root, ignore_errors=True)
 
 
+def worker_env():
+    env = dict(os.environ)
+    pp = env.get("PYTHONPATH", "")
+    if VERIF_DIR not in pp.split(os.pathsep):
+        env["PYTHONPATH"] = VERIF_DIR + (os.pathsep + pp if pp else "")
+    env.setdefault("PYTHONHASHSEED", "0")
+    env["PYTHONIOENCODING"] = "utf-8"
+    if env.get("VERIF_REPO"):
+        env["VERIF_REPO"] = os.path.abspath(env["VERIF_REPO"])
+    return env
+
+
+def run_worker(ctx, argv, cwd):
+    """-> (CompletedProcess, status dict, stderr text) or None (already reported)."""
+    try:
+        p = subprocess.run([sys.executable, "-W", "ignore", "-m", "verif.worker_c17"] + argv, env=worker_env(), cwd=cwd,
+                           stdin=subprocess.DEVNULL, stdout=subprocess.PIPE, stderr=subprocess.PIPE, timeout=WORKER_TIMEOUT_S)
+    except subprocess.TimeoutExpired:
+        ctx.require(False, "a C17 worker exceeded its %d s watchdog" % WORKER_TIMEOUT_S)
+        return None
+    err_text = p.stderr.decode("utf-8", "replace")
+    line = next((ln for ln in err_text.splitlines() if ln.startswith("C17WORKER ")), None)
+    if line is None:
+        ctx.violation(None, "worker process died (exit %s)" % p.returncode, detail={"stderr": err_text[-2500:], "argv": argv})
+        return None
+    status = json.loads(line[len("C17WORKER "):])
+    repo = os.path.realpath(os.environ.get("VERIF_REPO", "/repo"))
+    if not os.path.realpath(status["flow_record_file"]).startswith(repo + os.sep):
+        ctx.require(False, "C17 worker imported flow.record from %s, not from %s" % (status["flow_record_file"], repo))
+        return None
+    return p, status, "\n".join(ln for ln in err_text.splitlines() if not ln.startswith("C17WORKER "))
+
+
+# ---- (b'') split targets with relative names ----------------------------------------------------------
+def exec_split_relative(ctx, case):
+    from flow.record import RecordWriter
+
+    base_uri, kind, read_scheme, subdir = SPLIT_REL_FORMS[case["form"]]
+    spec = io17.KINDS[kind]
+    fam = spec["fam"]
+    limit, sl, n, end = case["limit"], case["sl"], case["n"], case["end"]
+    shapes = spec["shapes"] if fam != "avro" else "x"
+    records = io17.make_records(case["s"], n, shapes, generated=io17.fixed_generated(n))
+    expected = io17.observe_all(records)
+    d = case_dir(ctx)  # the worker's cwd; nothing in the shard process ever chdirs
+    os.makedirs(os.path.join(d, "sub"))
+    ctx.ev()
+    if base_uri.startswith("rdump:"):
+        # input for rdump lives outside the case directory so that the directory listing shows only what the writer made
+        src = os.path.join(ctx.state["tmp"], "in%d.records" % ctx.state["n"])
+        w = RecordWriter(src)
+        for r in records:
+            w.write(r)
+        w.flush()
+        w.close()
+        argv = ["--rdump", src, "--split", str(limit), "--suffix-length", str(sl), "-w", base_uri[len("rdump:"):]]
+        uri = " ".join(argv[1:])
+    else:
+        src = None
+        uri = "%s?count=%d&suffix-length=%d" % (base_uri, limit, sl)
+        argv = [uri, "w" * n + end, str(case["s"]), shapes]
+    res = run_worker(ctx, argv, d)
+    if src:
+        os.unlink(src)
+    if res is None:
+        shutil.rmtree(d, ignore_errors=True)
+        return
+    p, status, stderr = res
+    ctx.event("b_rel_workers_run")
+    extra = {"target": uri, "form": case["form"], "limit": limit, "suffix_length": sl, "n": n, "end": end, "op_errors": status["errors"],
+             "exit": p.returncode, "stderr": stderr[-800:]}
+    if not status.get("created"):
+        ctx.violation(None, "split (relative name): the writer cannot be created", detail=dict(extra, error=status.get("create_error")))
+        shutil.rmtree(d, ignore_errors=True)
+        return
+    ctx.nontrivial("splitrel", case["form"], limit, sl, n, end)
+    ctx.cell("splitrel", case["form"], "limit%d" % limit)
+    ctx.event("b_rel_cases")
+    if p.returncode != 0 or status.get("rdump_rc") not in (None, 0) or status["errors"]:
+        ctx.violation(None, "split (relative name): the writing process reported an error", detail=extra)
+    if p.stdout:
+        ctx.violation(None, "split (relative name): output went to standard output instead of the named file",
+                      detail=dict(extra, stdout_bytes=len(p.stdout), stdout_head=p.stdout[:80]))
+    # every file the writer made must be a part inside the directory the name points to
+    pd = os.path.join(d, subdir) if subdir else d
+    stray = []
+    for dp, _, fns in os.walk(d):
+        for fn in fns:
+            if os.path.realpath(dp) != os.path.realpath(pd):
+                stray.append(os.path.join(dp, fn)[len(d):])
+    if stray:
+        ctx.violation(None, "split (relative name): files appeared outside the directory the name points to", detail=dict(extra, files=stray[:8]))
+    ctx.event("b_cases")
+    ctx.event("b_records_written", n)
+    analyse_parts(ctx, case, pd, spec, read_scheme, expected, extra, "splitrel:" + case["form"])
+    shutil.rmtree(d, ignore_errors=True)
+
+
 # ---- (d) writers on standard output -----------------------------------------------------------------
 def exec_stdout(ctx, case):
     uri, kind, shapes = STDOUT_TARGETS[case["tg"]]
@@ -794,6 +936,8 @@ def exec_stdout(ctx, case):
 def execute(ctx, case):
     if case["k"] == "stdout":
         return exec_stdout(ctx, case)
+    if case["k"] == "splitrel":
+        return exec_split_relative(ctx, case)
     if case["k"] == "hist":
         exec_history(ctx, case)
     elif case["k"] == "split":
@@ -821,6 +965,7 @@ def finish(ctx):
     ctx.require(ev.get("c_cases", 0) > 0 and ev.get("c_rename_events", 0) > 0 and ev.get("c_files_read", 0) > 0,
                 "part (c): the rename monitor saw no rename or no rotated file was read")
     ctx.require(ev.get("c_sentinels_rotated", 0) > 0, "part (c): no sentinel file was rotated")
+    ctx.require(ev.get("b_rel_cases", 0) > 0, "part (b): no split target with a relative name was written")
     ctx.require(ev.get("d_cases", 0) > 0 and ev.get("d_independent_reads", 0) > 0 and ev.get("d_bytes_captured", 0) > 0,
                 "part (d): no standard-output capture was read back")
     for q in ANCHORS:
